@@ -195,6 +195,27 @@ func c02Cells(tier string) []Cell {
 		}
 	}
 
+	// One of two callers has given up before it asked (its context is already cancelled): that is its own business and
+	// never becomes the result of the other one.
+	for front := 0; front < 3; front++ {
+		for cfgBits := 0; cfgBits < 32; cfgBits++ {
+			if tier == "quick" && cfgBits&0x18 != 0x08 && cfgBits != 0 {
+				continue
+			}
+
+			for _, init := range []string{"A", "S", "T"} {
+				for _, sc := range []string{"o", "f"} {
+					c := FCfg{
+						Front: front, SU: boolBits(cfgBits, 0), SR: boolBits(cfgBits, 1), FH: boolBits(cfgBits, 2),
+						MS: boolBits(cfgBits, 3), FTNeg: boolBits(cfgBits, 4),
+						Init: init, FailC: "0", Script: sc, Threads: [][]GOp{{{Key: 0, CBef: true}}, {{Key: 0}}},
+					}
+					cells = append(cells, Cell{ID: c.ID()})
+				}
+			}
+		}
+	}
+
 	// The builder fails with an error that satisfies ErrWithExpiredItem and carries a value of something else (handed
 	// through from a second-level cache): a failure like any other, the carried value is nobody's result.
 	for front := 0; front < 3; front++ {
@@ -266,7 +287,7 @@ func init() {
 	Register(&Prop{
 		ID: "C02", Title: "Failover results always have provenance; nothing is fabricated or mixed up",
 		Cells: c02Cells, Run: c02Run,
-		Rule: "cell = front-end x 32 configurations x entry state x builder script x client program (two Gets on one key; one of them under SkipRead; two keys) x fault injection on/off; plus two constructed hash-colliding keys, a caller reusing one key buffer for successive Gets, and a builder whose error satisfies ErrWithExpiredItem and carries a foreign value; " +
+		Rule: "cell = front-end x 32 configurations x entry state x builder script x client program (two Gets on one key; one of them under SkipRead; two keys) x fault injection on/off; plus two constructed hash-colliding keys, a caller reusing one key buffer for successive Gets, a builder whose error satisfies ErrWithExpiredItem and carries a foreign value, and a caller whose context is cancelled before its Get; " +
 			"per cell all schedules within the preemption bound, and with faults on every backend Read/Write call position failing (at most 1 quick / 2 thorough per execution); " +
 			"values and errors are tokens (key, origin, n), every returned pair is traced back to a finished builder invocation, the preloaded content or an injected fault",
 		Assumptions: []string{
